@@ -159,6 +159,10 @@ func hqGenMap(rng *rand.Rand, prev map[string]string, jsonSafe bool) map[string]
 			}
 		}
 	}
+	if rng.Intn(4) == 0 {
+		// a key that LOOKS like a transport key (no exact "$tracing$" prefix): an ordinary application header
+		m[c18LookalikeKeys(false, "a", rng.Intn(64))] = str(pick(rng, 0, 1, 5))
+	}
 	return m
 }
 
@@ -173,16 +177,40 @@ func hqObsMaps(dst []int64, ctx tchannel.ContextWithHeaders) []int64 {
 	return putKVs(dst, sortedKVs(ctx.ResponseHeaders()))
 }
 
-func engineHdrSeq(rng *rand.Rand, n int, tier string, o *Out) {
-	server, err := tchannel.NewChannel("hs-server", nil)
+// hqEnvServer: one callee channel (one tracer configuration) with its handlers' state.
+type hqEnvServer struct {
+	side      c18Side
+	name      string
+	ch        *tchannel.Channel
+	srv       *hqServer
+	rawMu     sync.Mutex
+	rawFormat string
+	rawCalls  int
+}
+
+// hqEnv: one (caller channel, callee channel) pair.
+type hqEnv struct {
+	caller  c18Side
+	server  *hqEnvServer
+	client  *tchannel.Channel
+	hp      string
+	tclient gen.TChanSimpleService
+	jclient *json.Client
+	peer    *tchannel.Peer
+	sc      *tchannel.SubChannel
+}
+
+func hqNewServer(i int, side c18Side) *hqEnvServer {
+	es := &hqEnvServer{side: side, name: fmt.Sprintf("hs-server-%d", i), srv: &hqServer{}}
+	server, err := tchannel.NewChannel(es.name, side.opts())
 	if err != nil {
 		panic(err)
 	}
-	defer server.Close()
 	if err := server.ListenAndServe("127.0.0.1:0"); err != nil {
 		panic(err)
 	}
-	srv := &hqServer{}
+	es.ch = server
+	srv := es.srv
 	thrift.NewServer(server).Register(gen.NewTChanSimpleServiceServer(hqSimple{srv}))
 	json.Register(server, json.Handlers{
 		"echo": func(ctx json.Context, arg map[string]string) (map[string]string, error) {
@@ -198,40 +226,74 @@ func engineHdrSeq(rng *rand.Rand, n int, tier string, o *Out) {
 
 	// raw handler for the per-call transport state (arg scheme, application-error flag): echoes
 	// arg2 / arg3; arg3 starting with 'E' => application error.
-	var rawMu sync.Mutex
-	rawFormat, rawCalls := "", 0
 	server.Register(tchannel.HandlerFunc(func(ctx context.Context, call *tchannel.InboundCall) {
 		a2, a3, err := raw.ReadArgsV2(call)
 		if err != nil {
 			return
 		}
-		rawMu.Lock()
-		rawFormat, rawCalls = string(call.Format()), rawCalls+1
-		rawMu.Unlock()
+		es.rawMu.Lock()
+		es.rawFormat, es.rawCalls = string(call.Format()), es.rawCalls+1
+		es.rawMu.Unlock()
 		if len(a3) > 0 && a3[0] == 'E' {
 			call.Response().SetApplicationError()
 		}
 		tchannel.NewArgWriter(call.Response().Arg2Writer()).Write(a2)
 		tchannel.NewArgWriter(call.Response().Arg3Writer()).Write(a3)
 	}), "rawfmt")
+	return es
+}
 
-	client, err := tchannel.NewChannel("hs-client", nil)
-	if err != nil {
-		panic(err)
+func engineHdrSeq(rng *rand.Rand, n int, tier string, o *Out) {
+	// one environment per tracer configuration (c18_tracer.go): 4 caller channels x 6 callee
+	// channels.  The sequences, their model and their oracle are the same under every
+	// configuration: tracing must be transparent for the application headers.
+	var envServers []*hqEnvServer
+	for i, side := range c18CalleeSides() {
+		es := hqNewServer(i, side)
+		defer es.ch.Close()
+		envServers = append(envServers, es)
 	}
-	defer client.Close()
-	hp := server.PeerInfo().HostPort
-	client.Peers().Add(hp)
-	tclient := gen.NewTChanSimpleServiceClient(thrift.NewClient(client, "hs-server", nil))
-	jclient := json.NewClient(client, "hs-server", nil)
-	peer := client.Peers().GetOrAdd(hp)
-	sc := client.GetSubChannel("hs-server")
+	var envs []*hqEnv
+	for _, side := range c18CallerSides() {
+		client, err := tchannel.NewChannel("hs-client", side.opts())
+		if err != nil {
+			panic(err)
+		}
+		defer client.Close()
+		for _, es := range envServers {
+			hp := es.ch.PeerInfo().HostPort
+			sc := client.GetSubChannel(es.name, tchannel.Isolated)
+			sc.Peers().Add(hp)
+			envs = append(envs, &hqEnv{
+				caller: side, server: es, client: client, hp: hp,
+				tclient: gen.NewTChanSimpleServiceClient(thrift.NewClient(client, es.name, &thrift.ClientOptions{HostPort: hp})),
+				jclient: json.NewClient(client, es.name, &json.ClientOptions{HostPort: hp}),
+				peer:    client.Peers().GetOrAdd(hp),
+				sc:      sc,
+			})
+		}
+	}
+	// order of the environments: callee-major, so that consecutive cases change the caller
+	freshKey := 0
 
 	formats := []string{"thrift", "json", "json", "json"}
 
 	rawFormats := []tchannel.Format{tchannel.Raw, tchannel.JSON, tchannel.Thrift, tchannel.HTTP, ""}
 
 	for c := 0; c < n; c++ {
+		env := envs[(c*7+c/len(envs))%len(envs)] // 7 is coprime to 24: every configuration in turn, with every case shape
+		srv, client, hp := env.server.srv, env.client, env.hp
+		tclient, jclient, peer, sc := env.tclient, env.jclient, env.peer, env.sc
+		es := env.server
+		if tr := env.caller.own; tr != nil {
+			// the caller's tracer injects its ids and, in every third case, a key never used before
+			var extra [][2]string
+			if c%3 == 0 {
+				freshKey++
+				extra = append(extra, [2]string{fmt.Sprintf("seq-%d", freshKey), "v"})
+			}
+			tr.plan(c%11 == 10, extra)
+		}
 		if c%8 == 7 {
 			// per-call transport state on a reused connection, context and handler: every call of the
 			// sequence must show ITS OWN arg scheme (at the handler and on the response) and ITS OWN
@@ -248,10 +310,10 @@ func engineHdrSeq(rng *rand.Rand, n int, tier string, o *Out) {
 				}
 				a2 := []byte(utf8Safe(rng, pick(rng, 0, 1, 30)))
 				key += fmt.Sprintf("%s/%v/%d/%d ", f, appErr, len(a2), len(a3))
-				rawMu.Lock()
-				rawFormat, rawCalls = "?", 0
-				rawMu.Unlock()
-				call, err := client.BeginCall(ctx, hp, "hs-server", "rawfmt", &tchannel.CallOptions{Format: f})
+				es.rawMu.Lock()
+				es.rawFormat, es.rawCalls = "?", 0
+				es.rawMu.Unlock()
+				call, err := client.BeginCall(ctx, hp, es.name, "rawfmt", &tchannel.CallOptions{Format: f})
 				if err != nil {
 					verdict = "raw call could not start: " + err.Error()
 					break
@@ -261,9 +323,9 @@ func engineHdrSeq(rng *rand.Rand, n int, tier string, o *Out) {
 				if want == "" {
 					want = tchannel.Raw
 				}
-				rawMu.Lock()
-				seenF, seenN := rawFormat, rawCalls
-				rawMu.Unlock()
+				es.rawMu.Lock()
+				seenF, seenN := es.rawFormat, es.rawCalls
+				es.rawMu.Unlock()
 				switch {
 				case err != nil:
 					verdict = fmt.Sprintf("raw call %d failed: %v", k+1, err)
@@ -281,6 +343,7 @@ func engineHdrSeq(rng *rand.Rand, n int, tier string, o *Out) {
 			}
 			cancel()
 			o.Hist(fmt.Sprintf("raw-seq calls=%d", nCalls))
+			o.Hist("tracers " + c18Class(env.caller, es.side))
 			o.Oracle("hdrseq-raw", fmt.Sprintf("r%d", c), true, key, verdict)
 			continue
 		}
@@ -402,7 +465,7 @@ func engineHdrSeq(rng *rand.Rand, n int, tier string, o *Out) {
 				cerr = jclient.Call(top.ctx, "echo", map[string]string{"a": "b"}, &out)
 			case 2:
 				var out map[string]string
-				cerr = json.CallPeer(top.ctx, peer, "hs-server", "echo", map[string]string{"a": "b"}, &out)
+				cerr = json.CallPeer(top.ctx, peer, es.name, "echo", map[string]string{"a": "b"}, &out)
 			case 3:
 				var out map[string]string
 				cerr = json.CallSC(top.ctx, sc, "echo", map[string]string{"a": "b"}, &out)
@@ -453,6 +516,7 @@ func engineHdrSeq(rng *rand.Rand, n int, tier string, o *Out) {
 		}
 		cancel()
 		o.Hist(fmt.Sprintf("mode=%d calls=%d err=%v shrinking-response=%v", mode, min(nCalls, 5), withErr, sawLeakShape))
+		o.Hist("tracers " + c18Class(env.caller, es.side))
 		full := append([]int64{int64(nops)}, in...)
 		o.Case(sub, fmt.Sprintf("q%d", c), full, obs, true, verdict)
 		if c < 2 {
